@@ -627,7 +627,10 @@ func r15_6(c *RC) {
 			continue
 		}
 		n := 0
-		instrs(fn, func(b *ssa.BasicBlock, _ int, in ssa.Instruction) {
+		// the timer may be created in a helper of fn (readDeadlineChan())
+		for _, host := range withHelpers(p, fn, 2) {
+		host := host
+		instrs(host, func(b *ssa.BasicBlock, _ int, in ssa.Instruction) {
 			cl, ok := in.(*ssa.Call)
 			if !ok {
 				return
@@ -692,9 +695,19 @@ func r15_6(c *RC) {
 				return ""
 			}
 			seenV := map[string]bool{}
-			for _, ce := range controlConds(fn, b) {
-				for _, k := range condVocab(ce.If.Cond, classify) {
-					seenV[k] = true
+			gate := []*ssa.BasicBlock{b}
+			if chain, ok := callChain(p, fn, host, 2); ok {
+				for _, cs := range chain {
+					gate = append(gate, cs.Block())
+				}
+			} else {
+				seenV["?call-sites-of-"+host.Name()] = true
+			}
+			for _, gb := range gate {
+				for _, ce := range controlConds(gb.Parent(), gb) {
+					for _, k := range condVocab(ce.If.Cond, classify) {
+						seenV[k] = true
+					}
 				}
 			}
 			var foreign []string
@@ -710,6 +723,7 @@ func r15_6(c *RC) {
 				c.Bad(key, in.Pos(), "%s creates the deadline timer only under a condition on %v: for some stored deadlines (e.g. one that already passed) no timer exists and the call is no longer bounded by the deadline", fname, foreign)
 			}
 		})
+		}
 		if n == 0 {
 			c.Bad("deadline-arms-timer@"+fname, fn.Pos(), "%s creates no timer from the stored deadline", fname)
 		}
